@@ -449,10 +449,22 @@ std::string run_case(Src& s, CaseInfo& ci)
     std::string filler = "rule filler { strings:";
     for (int i = 0; i < 150; i++) filler += strf(" $f%03d = \"zq%03dqz\"", i, i);
     filler += " condition: any of them }\n";
-    std::string src = filler + "rule hot { strings: $h = \"\\x1f\" condition: $h }\n"
-                      "rule other { strings: $a = \"abc\" $b = \"\\x1f\\x1fabc\" condition: #a == 2 and #b == 1 and @a[2] > 1000000 }\n";
-    bytes data = "abc" + bytes(1000050, '\x1f') + "abc";
-    ci.desc = strf("a string with 1,000,050 matches; callback answers %s to TOO_MANY_MATCHES",
+    // the hot string sits at a generated position of the rule set: its own index, its rule's index and the
+    // indexes of the strings around it all differ, and every other string has occurrences behind the point
+    // where the limit is reached - only the hot string may be muted
+    int before = (int) s.range(0, 3);
+    std::string src;
+    std::vector<std::string> others;
+    for (int i = 0; i < before; i++)
+    {
+      src += strf("rule early%d { strings: $p = \"head%d\" $q = \"tail%d\" condition: #p == 1 and #q == 1 and @q[1] > 1000000 }\n", i, i, i);
+      others.push_back(strf("early%d", i));
+    }
+    src += "rule hot { strings: $h = \"\\x1f\" condition: $h }\n" + filler +
+           "rule other { strings: $a = \"abc\" $b = \"\\x1f\\x1fabc\" condition: #a == 2 and #b == 1 and @a[2] > 1000000 }\n";
+    others.push_back("other");
+    bytes data = "abc head0 head1 head2 " + bytes(1000050, '\x1f') + "abc tail0 tail1 tail2 zq001qz zq002qz";
+    ci.desc = strf("a string with 1,000,050 matches (rule %d of the set); callback answers %s to TOO_MANY_MATCHES", before,
                    action == 0 ? "CONTINUE" : action == 1 ? "ABORT" : "ERROR");
     checkpoint(s, ci.desc);
     Outcome o = compile_scan(src, data, 0, action);
@@ -464,8 +476,13 @@ std::string run_case(Src& s, CaseInfo& ci)
     {
       if (o.rc_scan != 0)
         failure = ci.desc + strf(": scan returned %d", o.rc_scan);
-      else if (o.trace.find("M default:other") == std::string::npos)
-        failure = ci.desc + ": the results of the other rule changed (it must still match)";
+      else if (o.trace.find("M default:filler") == std::string::npos)
+        failure = ci.desc + ": rule `filler` no longer matches";
+      for (auto& nm : others)
+        if (failure.empty() && o.trace.find("M default:" + nm) == std::string::npos)
+          failure = ci.desc + ": the results of rule `" + nm + "` changed (it must still match: its strings occur before and after the point where the limit is reached)";
+      if (!failure.empty())
+        ;
       else if (o.trace.find("M default:hot") == std::string::npos)
         failure = ci.desc + ": the muted string's rule no longer matches";
     }
